@@ -14,7 +14,7 @@ RULE = ("assertion kind (eq, ne, lt, le, gt, ge with secret or constant second o
         "Independently the accepted set A is computed by calling the assertion in normal mode on every value, and the "
         "relation R from its definition. Oracle: S has no value outside R (false => unsatisfiable), A is inside S "
         "(accepted => satisfiable) and S == A (the in-circuit relation is the run-time one: same bounds, same width). "
-        "Non-trivial = window has values on both sides of R and S is neither empty nor full; distinct by "
+        "Fixed-point assertions are also given non-finite float bounds (nan, inf, -inf; relation = Python float comparison). Non-trivial = window has values on both sides of R and S is neither empty nor full; distinct by "
         "(kind, parameters, field, bitlength).")
 
 
@@ -48,6 +48,11 @@ def kinds(b):
         K.append(Kind("fxp.assert_%s(x,float const)" % nm, 1,
                       (lambda n: lambda ns, ops, prm: getattr(ns.fx.LinCombFxp(ops[0], False), "assert_" + n)(prm))(nm),
                       (lambda r: lambda v, prm: r(v[0], int(prm * (1 << env.bind().fx.resolution))))(rel), params=[0.5, -1.5]))
+        # floats that are not numbers of the fixed-point range (written as strings in cases: JSON has no NaN): either refused
+        # (today: ValueError / OverflowError from the conversion) or the relation Python's float comparison gives
+        K.append(Kind("fxp.assert_%s(x,non-finite float)" % nm, 1,
+                      (lambda n: lambda ns, ops, prm: getattr(ns.fx.LinCombFxp(ops[0], False), "assert_" + n)(float(prm)))(nm),
+                      (lambda r: lambda v, prm: r(v[0] / float(1 << env.bind().fx.resolution), float(prm)))(rel), params=["nan", "inf", "-inf"]))
         K.append(Kind("fxp.assert_%s(x,secret int)" % nm, 2,
                       (lambda n: lambda ns, ops, prm: getattr(ns.fx.LinCombFxp(ops[0], False), "assert_" + n)(ops[1]))(nm),
                       (lambda r: lambda v, prm: r(v[0], v[1] * (1 << env.bind().fx.resolution)))(rel)))
@@ -104,6 +109,10 @@ def kinds(b):
                   lambda ns, ops, prm: ns.fx.LinCombFxp(ops[0], False).assert_range(prm[0], prm[1]),
                   lambda v, prm, _r=None: prm[0] * (1 << env.bind().fx.resolution) <= v[0] < prm[1] * (1 << env.bind().fx.resolution),
                   params=[(0, 1), (-1, 1)]))
+    K.append(Kind("fxp.assert_range(non-finite bounds)", 1,
+                  lambda ns, ops, prm: ns.fx.LinCombFxp(ops[0], False).assert_range(float(prm[0]), float(prm[1])),
+                  lambda v, prm, _r=None: float(prm[0]) <= v[0] / float(1 << env.bind().fx.resolution) < float(prm[1]),
+                  params=[("0", "nan"), ("nan", "1"), ("-inf", "1"), ("0", "inf"), ("-inf", "nan")]))
     K.append(Kind("LinCombBool(x)", 1, lambda ns, ops, prm: ns.bo.LinCombBool(ops[0]), lambda v, prm: v[0] in (0, 1)))
     K.append(Kind("_ensurebool(x)", 1, lambda ns, ops, prm: ns.bo.LinCombBool._ensurebool(ops[0]), lambda v, prm: v[0] in (0, 1)))
     K.append(Kind("PrivValBool", 1, lambda ns, ops, prm: None, lambda v, prm: v[0] in (0, 1), optype="PB"))
